@@ -413,7 +413,8 @@ class LoaderGroup(Generic[_K, _L]):
         all_results = da.compute(all_tasks)[0]
         out = DataFrameDict()
         for key, result in zip(keys, all_results):
-            out[key] = pl.DataFrame(np.array(result), schema=schema)
+            # one inner array per function (= column), whatever the number of molecules
+            out[key] = pl.DataFrame(np.array(result), schema=schema, orient="col")
         return out
 
     def fsc(
